@@ -75,7 +75,14 @@ fn subset_v0(cpal: &Cpal, plan: &Plan, s: &mut Serializer) -> Result<(), Seriali
         color_records_arr_offset_pos,
     )?;
 
-    let num_color_records = (first_record_idx_map.len() as u16) * num_colors;
+    // numColorRecords is a u16: palettes that overlapped only partially in the source are written
+    // out separately and may not fit any more
+    let Some(num_color_records) = u16::try_from(first_record_idx_map.len())
+        .ok()
+        .and_then(|n| n.checked_mul(num_colors))
+    else {
+        return Err(s.set_err(SerializeErrorFlags::SERIALIZE_ERROR_INT_OVERFLOW));
+    };
     s.copy_assign(num_color_records_pos, num_color_records);
 
     //colorRecordIndices
@@ -156,7 +163,7 @@ impl<'a> SubsetTable<'a> for &'a [ColorRecord] {
         let (color_record_indices, retained_entries) = args;
         let num_palette_entries = retained_entries.len() as u16;
 
-        let mut new_idx = 0_u16;
+        let mut new_idx = 0_usize;
         let mut first_record_idx_map = FnvHashMap::default();
         for first_record_idx in color_record_indices {
             let first_idx = first_record_idx.get();
@@ -165,8 +172,8 @@ impl<'a> SubsetTable<'a> for &'a [ColorRecord] {
             }
 
             for entry_idx in retained_entries.iter() {
-                let record_idx = first_idx + entry_idx;
-                let Some(record) = self.get(record_idx as usize) else {
+                let record_idx = first_idx as usize + entry_idx as usize;
+                let Some(record) = self.get(record_idx) else {
                     return Err(s.set_err(SerializeErrorFlags::SERIALIZE_ERROR_OTHER));
                 };
                 s.embed(record.blue())?;
@@ -174,8 +181,9 @@ impl<'a> SubsetTable<'a> for &'a [ColorRecord] {
                 s.embed(record.red())?;
                 s.embed(record.alpha())?;
             }
-            first_record_idx_map.insert(first_idx, new_idx);
-            new_idx += num_palette_entries;
+            // (an index beyond u16 means more than 65535 colour records: reported by the caller)
+            first_record_idx_map.insert(first_idx, new_idx as u16);
+            new_idx += num_palette_entries as usize;
         }
         Ok(first_record_idx_map)
     }
